@@ -1012,8 +1012,10 @@ def flatten(x:Tensor, start_dim:int=0, end_dim:int=-1) -> 'Tensor':
         raise TypeError(f"Expected x to be a Tensor but got {type(x)}")
     
     shape = x.shape
-    start = start_dim if start_dim != -1 else len(shape)
-    end = end_dim if end_dim != -1 else len(shape)
+    start = start_dim + len(shape) if start_dim < 0 else start_dim
+    end = end_dim + len(shape) if end_dim < 0 else end_dim
+    if len(shape) == 0:
+        start, end, shape = 0, 0, (1,) # a 0-d tensor flattens to one element
     if start > end:
         raise RuntimeError("flatten() has invalid args: start_dim cannot come after end_dim")
     if start < end:
